@@ -44,6 +44,9 @@ struct Cmd {
     closures: Vec<Option<i32>>,
     /// the same Command is spawned twice (fault-free first time); the second spawn is judged
     twice: bool,
+    /// the caller has its descriptor 0 closed when it spawns (the kernel then hands 0 out to the
+    /// pipe or /dev/null that spawn opens for the child's stdin)
+    stdin_closed: bool,
     exit: i32,
 }
 
@@ -59,7 +62,7 @@ fn dumpenv_path() -> String {
 }
 
 fn base_cmds() -> Vec<Cmd> {
-    let c = |io: [Io; 3]| Cmd { missing_bin: false, args: vec![], env: None, cwd: false, pgroup: false, uid: None, gid: None, io, closures: vec![], twice: false, exit: 42 };
+    let c = |io: [Io; 3]| Cmd { missing_bin: false, args: vec![], env: None, cwd: false, pgroup: false, uid: None, gid: None, io, closures: vec![], twice: false, stdin_closed: false, exit: 42 };
     let mut v = vec![
         c([Io::Default; 3]),
         c([Io::Null, Io::Null, Io::Null]),
@@ -91,6 +94,12 @@ fn base_cmds() -> Vec<Cmd> {
     t2.twice = true;
     t2.args = vec![b"again".to_vec()];
     v.push(t2);
+    let mut z = c([Io::Pipe, Io::Pipe, Io::Null]);
+    z.stdin_closed = true;
+    v.push(z);
+    let mut z2 = c([Io::Null, Io::Null, Io::Null]);
+    z2.stdin_closed = true;
+    v.push(z2);
     v.push(c([Io::Null, Io::Null, Io::CallerStdout]));
     v.push(c([Io::Null, Io::Pipe, Io::CallerStdout]));
     let mut e = c([Io::Pipe, Io::Null, Io::Pipe]);
@@ -169,6 +178,7 @@ fn gen_cmd(dec: &mut Dec) -> Cmd {
         io: [pick_io(dec), pick_io(dec), pick_io(dec)],
         closures,
         twice: false,
+        stdin_closed: false,
         exit,
     }
 }
@@ -282,6 +292,15 @@ fn run_cmd(cmd: &Cmd, plan: Option<Plan>, dec: Dec, record: bool, slot: u64) -> 
         -1
     };
     let inherit_stat = [stat_of(0), stat_of(1), stat_of(2)];
+    let saved_stdin = if cmd.stdin_closed {
+        unsafe {
+            let saved = libc::fcntl(0, libc::F_DUPFD_CLOEXEC, 100);
+            libc::close(0);
+            saved
+        }
+    } else {
+        -1
+    };
     let my_pgid = unsafe { libc::getpgid(0) };
     let my_cwd = std::env::current_dir().unwrap();
 
@@ -417,6 +436,12 @@ fn run_cmd(cmd: &Cmd, plan: Option<Plan>, dec: Dec, record: bool, slot: u64) -> 
     for fd in raw_fds_to_close {
         unsafe { libc::close(fd) };
     }
+    if saved_stdin >= 0 {
+        unsafe {
+            libc::dup2(saved_stdin, 0);
+            libc::close(saved_stdin);
+        }
+    }
     if saved_stdout >= 0 {
         // Stdio::RawFd takes the descriptor over (spawn closes it in the caller): restore ours
         unsafe {
@@ -475,6 +500,11 @@ fn run_cmd(cmd: &Cmd, plan: Option<Plan>, dec: Dec, record: bool, slot: u64) -> 
                 }
             }
             (Some(Err(_)), Some(None)) => {}
+            (Some(Err(err)), None) if cmd.stdin_closed && os_code(err) == Some(22) => {
+                // with descriptor 0 free, the pipe / null device opened for the child's stdin *is*
+                // descriptor 0 and dup3(0, 0) fails with EINVAL: an error carrying that step's
+                // errno, which is what the statement asks for.  (Ok with the right streams is fine too.)
+            }
             (Some(Err(err)), None) => {
                 viol = Some(Violation { sig: format!("spurious-error|{label}"), detail: format!("no step that must fail the spawn failed ({label}), yet spawn returned {err:?}") });
             }
@@ -798,7 +828,7 @@ impl Check for C13 {
         12
     }
     fn rule(&self) -> String {
-        "enumeration part (complete): 16 base commands (every stdio mode per stream, args incl. empty and non-UTF-8, provided environment with duplicates/empty values/'=' in values, cwd, pgroup, uid/gid current and 65534, succeeding and failing pre_exec closures incl. one failing without an errno, missing binary, one Command spawned twice) x every system-call index of the recorded parent trace and of the child trace between fork and exec x every plausible errno. seeded part: generated commands (0..7 args incl. 5000-byte and invalid UTF-8, 0..6 env entries, all options) with no fault or one drawn single fault. Oracle: code placed right after spawn() compares pids (a forked copy that gets there reports through a shared page); Ok => the exec target's dump (argv, raw environment block, cwd, pgid, uid/gid, identity of descriptors 0-2) equals the configuration and wait() yields its exit status; a failing step => Err with that step's errno and no child left alive. non-trivial = a fault fired or a closure/exec failure was configured; distinct = hash of (command, trace, plan)".into()
+        "enumeration part (complete): 18 base commands (every stdio mode per stream, args incl. empty and non-UTF-8, provided environment with duplicates/empty values/'=' in values, cwd, pgroup, uid/gid current and 65534, succeeding and failing pre_exec closures incl. one failing without an errno, missing binary, one Command spawned twice, two with the caller's descriptor 0 closed) x every system-call index of the recorded parent trace and of the child trace between fork and exec x every plausible errno. seeded part: generated commands (0..7 args incl. 5000-byte and invalid UTF-8, 0..6 env entries, all options) with no fault or one drawn single fault. Oracle: code placed right after spawn() compares pids (a forked copy that gets there reports through a shared page); Ok => the exec target's dump (argv, raw environment block, cwd, pgid, uid/gid, identity of descriptors 0-2) equals the configuration and wait() yields its exit status; a failing step => Err with that step's errno and no child left alive. non-trivial = a fault fired or a closure/exec failure was configured; distinct = hash of (command, trace, plan)".into()
     }
     fn assumptions(&self) -> Vec<String> {
         vec![
